@@ -1221,6 +1221,10 @@ func TestBatchInvariance(t *testing.T)               { property(t, smallTrees) }
 func TestBatchInvarianceProductionTree(t *testing.T) { property(t, productionTrees) }
 
 func property(t *testing.T, g genOpts) {
+	if p := os.Getenv("VERIF_REPLAY"); p != "" && !strings.HasSuffix(p, ".fail") {
+		replay(t, p)
+		return
+	}
 	r := ev.New(t, "C15")
 	dir := scratchDir(t)
 	rapid.Check(t, func(t *rapid.T) {
@@ -1228,9 +1232,6 @@ func property(t *testing.T, g genOpts) {
 		o := evaluate(c, dir)
 		if o.outside != nil {
 			t.Skipf("outside domain: %v", o.outside)
-		}
-		if os.Getenv("C15_EXPLORE") != "" && len(o.attributed) > 0 {
-			t.Skip("explore")
 		}
 		r.Case()
 		classify(r, c, o)
@@ -1249,6 +1250,10 @@ func TestReplay(t *testing.T) {
 	if path == "" {
 		t.Skip("VERIF_REPLAY not set")
 	}
+	replay(t, path)
+}
+
+func replay(t *testing.T, path string) {
 	b, err := os.ReadFile(path)
 	if err != nil {
 		t.Fatalf("VERIF-INFRA: %v", err)
